@@ -273,10 +273,20 @@ def corruptions(m, spec, v, nspec, rng):
             newk = rng.choice(['verif_unknown', 'zzz', 'extra_thing'])
             if newk in keys:
                 continue
+            knode = N.s_str(newk)
+            if rng.random() < 0.12:
+                # an unknown key that is no string
+                knode = rng.choice([N.s_int(123), N.s_bool(True),
+                                    ['s', S.TAG_TS, '2001-12-14'],
+                                    N.s_float(1.5)])
+                newk = knode[2]
             n2 = copy.deepcopy(node)
             i = rng.randint(0, len(n2[1]))
-            n2[1].insert(i, [N.s_str(newk), N.s_int(1)])
-            yield 'added_key', D.set_at(nspec, p, n2), p + (('k', i),), [newk]
+            n2[1].insert(i, [knode, N.s_int(1)])
+            # (a class that reads dashes as underscores may name the key in
+            # the spelling it uses itself, as for dropped keys)
+            yield 'added_key', D.set_at(nspec, p, n2), p + (('k', i),), \
+                [newk, newk.replace('-', '_')]
 
 
 def strong_case(ctx, spec, m, v, nspec, rng):
